@@ -43,6 +43,7 @@ type SpecCtx struct {
 	lookup  func(name string) (CE, bool)
 	what    string // for error messages
 	noOld   bool
+	inOld   bool
 }
 
 func (c *SpecCtx) with(st *State) *SpecCtx {
@@ -147,7 +148,9 @@ func (e *Enc) compile(c *SpecCtx, x *Expr) CE {
 		if c.old == nil {
 			fail("%s: old() not available here", c.what)
 		}
-		return e.compile(c.with(c.old), x.Args[0])
+		oc := c.with(c.old)
+		oc.inOld = true
+		return e.compile(oc, x.Args[0])
 	case "un":
 		a := e.compile(c, x.Args[0])
 		switch x.Name {
@@ -211,6 +214,16 @@ func (e *Enc) compile(c *SpecCtx, x *Expr) CE {
 func (e *Enc) compileIdent(c *SpecCtx, name string) CE {
 	if v, ok := c.names[name]; ok {
 		return v
+	}
+	if c.inOld && c.fr != nil {
+		// inside old(): a parameter name denotes the value passed in, even if
+		// the variable has been reassigned since (loop-carried parameters)
+		for i, p := range c.fr.fn.Params {
+			if p.Name() == name && i < len(c.fr.params) {
+				v := c.fr.params[i]
+				return CE{T: v.T, P: v.P, Typ: p.Type(), Fn: v.Fn}
+			}
+		}
 	}
 	switch name {
 	case "result":
